@@ -379,6 +379,7 @@ struct Endpoint {
             vh::counter("completed_by_timeout");
             absorb();
         }
+        if (g_stop) return;
         for (auto &kv : pending) {
             const Req &r = reqs[(size_t)kv.second];
             if (g_now - r.issued_at >= (uint64_t)N * 1000) {
